@@ -1,6 +1,6 @@
 (* C11 property theorems. *)
 From Coq Require Import NArith List Bool.
-From PV Require Import Model.Conn Spec.C11 Proofs.C11Facts.
+From PV Require Import Model.Conn Model.ConnSM Spec.C11 Proofs.C11Facts Proofs.C11smFacts.
 Import ListNotations.
 
 Theorem C11_cycles : C11_statement.
@@ -15,3 +15,19 @@ Example C11_nonvacuous :
   map co_opens (run_conn true [mkCin 1 2; mkCin 2 0]) = [[(0, false); (20, false); (20, true)]; [(0, true)]]%N /\
   map co_consumers (run_conn true [mkCin 1 2; mkCin 2 0]) = [3; 3].
 Proof. vm_compute. split; reflexivity. Qed.
+
+(* event-level model: every sequence of faults, open results, back-off expiries and new devices *)
+Theorem C11_sm : C11_sm_statement.
+Proof. exact C11smFacts.C11_sm. Qed.
+Print Assumptions C11_sm.
+Theorem C11_sm_refines : C11_sm_refines_statement.
+Proof. exact C11smFacts.C11_sm_refines. Qed.
+Print Assumptions C11_sm_refines.
+Theorem C11_nobreak_refuted : c_producers (crun false true (cycle_events 0)) = 2%nat.
+Proof. exact C11smFacts.C11_nobreak_refuted. Qed.
+Theorem C11_unguarded_refuted : mon_ok (clog (crun false false [ENewDevice; EFault; EFault])) = false.
+Proof. exact C11smFacts.C11_unguarded_refuted. Qed.
+Example C11_sm_nonvacuous :
+  clog (crun true true (ENewDevice :: cycle_events 1)) =
+  [LNew; LDown 0; LClose; LOpen false; LBackoff; LOpen true; LStartMaster; LUp 0].
+Proof. vm_compute. reflexivity. Qed.
